@@ -5,7 +5,10 @@
 //   cfg <poly|orth> <segmentPenalty> <txn0>
 //   op <name> <args…>                    printed BEFORE the call is made
 //   os <id> <isJ> <active> <n> x y …     after the call: every obstacle object still alive
-//   oc <id> <hasSrc> sx sy <hasDst> dx dy                  every connector
+//   oc <id> <hasSrc> <sAnchor> <sCls> sx sy <hasDst> <dAnchor> <dCls> dx dy      every connector: ConnRef::endpointConnEnds();
+//                                         a free end: anchor 0, cls 0, the end vertex; an end attached to a pin
+//                                         class of a shape / to a junction: obstacle id, pinClassId(), 0 0
+//   pp <shape> <cls> <xo> <yo> x y        ShapeConnectionPin::position() of every pin the harness created
 //   oe                                    end of the observation (driver steps its model here)
 //   txn <seq> <graphDumped>               a processing point (explicit processTransaction(), or
 //                                         any call while transactions are off)
@@ -55,14 +58,17 @@ void rerouteSink(const Router *router, const ConnRef *conn, bool needs, bool fal
 
 struct Rc { double x0, y0, x1, y1; };
 
+struct PinDef { unsigned cls; double xo, yo; ShapeConnectionPin *pin; };
 struct Ob {                 // harness-side mirror of one ShapeRef / JunctionRef
     unsigned id; bool isJ;
     ShapeRef *s; JunctionRef *j;
     Rc r;                   // immediate-semantics geometry (junction: its 2x2 box, centre = position)
     bool pendingAdd, pendingDel;
     int rot;                // the polygon starts at vertex `rot` of Avoid::Rectangle's order (closing side varies)
+    std::vector<PinDef> pins;
 };
-struct Cn { unsigned id; ConnRef *c; bool hs, hd; Point s, d; };
+// sa / da: immediate-semantics anchor of the end (0 = free point s / d), scl / dcl its pin class
+struct Cn { unsigned id; ConnRef *c; bool hs, hd; Point s, d; unsigned sa, scl, da, dcl; };
 
 struct World {
     Router *router = nullptr;
@@ -76,6 +82,7 @@ struct World {
     int dumpsLeft = 2;
     long nops = 0;
     int ran = 2;                    // did the last call process a non-empty transaction (2 = implicit, unknown)
+    bool pinsOn = false;            // generator class with connection pins
 };
 
 const double LO = 0, HI = 120;
@@ -96,8 +103,9 @@ bool placeable(const World &w, const Rc &r, unsigned self) {
         if (!sep(r, o.r, 1 + 2 * w.buf)) return false;        // routing polygons stay disjoint too
     }
     for (const Cn &c : w.cns) {
-        if (c.hs && !ptClear(c.s, r, 1 + w.buf)) return false;    // random placement keeps endpoints out of
-        if (c.hd && !ptClear(c.d, r, 1 + w.buf)) return false;    // buffer zones (only class buffer-endpoint puts them there)
+        // (an end attached to a pin lies on the border of its anchor, which `sep` keeps >= 1 away)
+        if (c.hs && !c.sa && !ptClear(c.s, r, 1 + w.buf)) return false;    // random placement keeps endpoints out of
+        if (c.hd && !c.da && !ptClear(c.d, r, 1 + w.buf)) return false;    // buffer zones (only class buffer-endpoint puts them there)
     }
     return true;
 }
@@ -134,18 +142,38 @@ void observe(World &w) {
         }
         printf("orp %u", o.id); pts(o.isJ ? ((Obstacle *) o.j)->routingPolygon() : ((Obstacle *) o.s)->routingPolygon()); printf("\n");
     }
+    for (const Ob &o : w.obs)
+        for (const PinDef &pd : o.pins) {
+            Point q = pd.pin->position();
+            printf("pp %u %u %s %s %s %s\n", o.id, pd.cls, vh::hx(pd.xo).c_str(), vh::hx(pd.yo).c_str(), vh::hx(q.x).c_str(), vh::hx(q.y).c_str());
+        }
     for (const Cn &c : w.cns) {
-        VertInf *s = c.c->src(), *d = c.c->dst();
-        printf("oc %u %d %s %s %d %s %s\n", c.id, s ? 1 : 0, vh::hx(s ? s->point.x : 0).c_str(), vh::hx(s ? s->point.y : 0).c_str(),
-               d ? 1 : 0, vh::hx(d ? d->point.x : 0).c_str(), vh::hx(d ? d->point.y : 0).c_str());
+        VertInf *v[2] = {c.c->src(), c.c->dst()};
+        printf("oc %u", c.id);
+        // ConnRef::endpointConnEnds(): a copy of m_src_connend / m_dst_connend if the end is (or was) attached,
+        // else ConnEnd(vertex point). (It warns on stderr about an end that is not set yet.)
+        std::pair<ConnEnd, ConnEnd> ce;
+        if (v[0] || v[1]) ce = c.c->endpointConnEnds();
+        for (int e = 0; e < 2; ++e) {
+            if (!v[e]) { printf(" 0 0 0 %s %s", vh::hx(0).c_str(), vh::hx(0).c_str()); continue; }
+            const ConnEnd &one = e == 0 ? ce.first : ce.second;
+            if (one.type() == ConnEndShapePin) printf(" 1 %u %u %s %s", one.shape()->id(), one.pinClassId(), vh::hx(0).c_str(), vh::hx(0).c_str());
+            else if (one.type() == ConnEndJunction) printf(" 1 %u %u %s %s", one.junction()->id(), one.pinClassId(), vh::hx(0).c_str(), vh::hx(0).c_str());
+            else printf(" 1 0 0 %s %s", vh::hx(v[e]->point.x).c_str(), vh::hx(v[e]->point.y).c_str());
+        }
+        printf("\n");
     }
     printf("oe\n");
 }
 
-Router *mkRouter(bool orth, double pen, double buf) {
+Router *mkRouter(bool orth, double pen, double buf, bool pins = false) {
     Router *r = new Router(orth ? OrthogonalRouting : PolyLineRouting);
     r->setRoutingParameter(segmentPenalty, pen);
     if (buf > 0) r->setRoutingParameter(shapeBufferDistance, buf);
+    // pin classes: connectors attached to a junction form a hyperedge; with the (default-on) hyperedge improvement
+    // displayRoute() is rewritten around a moved junction and HyperedgeImprover::execute leaks (C12 / C15 known
+    // findings) - not this property's business, so the option is off in those classes (also in the fresh router)
+    if (pins) r->setRoutingOption(improveHyperedgeRoutesMovingJunctions, false);
     return r;
 }
 
@@ -171,6 +199,7 @@ void settle(World &w) {              // the queue was processed: deleted objects
 void txnPoint(World &w, vh::Rng &rng, bool forceDump) {
     bool dump = forceDump || (w.dumpsLeft > 0 && rng.coin(1, 6));
     if (dump && w.dumpsLeft > 0) --w.dumpsLeft; else if (!forceDump) dump = false;
+    if (w.pinsOn) dump = false;                     // the graph audit does not know pin vertices
     printf("txn %ld %d\n", w.seq++, (int) dump);
     bool all = true;
     for (const Cn &c : w.cns) {
@@ -212,17 +241,32 @@ void txnPoint(World &w, vh::Rng &rng, bool forceDump) {
     printf("ff %d\n", (int) all);
     fflush(stdout);
     if (all) {
-        Router *f = mkRouter(w.orth, w.pen, w.buf);
+        Router *f = mkRouter(w.orth, w.pen, w.buf, w.pinsOn);
         std::vector<Ob> so = w.obs;
         std::sort(so.begin(), so.end(), [](const Ob &a, const Ob &b) { return a.id < b.id; });
+        std::map<unsigned, ShapeRef *> fs; std::map<unsigned, JunctionRef *> fj;
         for (const Ob &o : so) {
-            if (o.isJ) new JunctionRef(f, o.j->position(), o.id);
-            else { Polygon p = o.s->polygon(); new ShapeRef(f, p, o.id); }
+            if (o.isJ) fj[o.id] = new JunctionRef(f, o.j->position(), o.id);
+            else {
+                Polygon p = o.s->polygon(); ShapeRef *ns = new ShapeRef(f, p, o.id); fs[o.id] = ns;
+                for (const PinDef &pd : o.pins) {
+                    ShapeConnectionPin *np = new ShapeConnectionPin(ns, pd.cls, pd.xo, pd.yo, true, 0.0, pd.pin->directions());
+                    np->setExclusive(false);
+                }
+            }
         }
         std::vector<ConnRef *> fc;
-        for (const Cn &c : w.cns)
-            fc.push_back(new ConnRef(f, ConnEnd(Point(c.c->src()->point.x, c.c->src()->point.y)),
-                                     ConnEnd(Point(c.c->dst()->point.x, c.c->dst()->point.y)), c.id));
+        for (const Cn &c : w.cns) {
+            std::pair<ConnEnd, ConnEnd> ce = c.c->endpointConnEnds();
+            ConnEnd two[2] = {ce.first, ce.second};
+            VertInf *v[2] = {c.c->src(), c.c->dst()};
+            for (int e = 0; e < 2; ++e) {
+                if (two[e].type() == ConnEndShapePin) two[e] = ConnEnd(fs.at(two[e].shape()->id()), two[e].pinClassId());
+                else if (two[e].type() == ConnEndJunction) two[e] = ConnEnd(fj.at(two[e].junction()->id()));
+                else two[e] = ConnEnd(Point(v[e]->point.x, v[e]->point.y));
+            }
+            fc.push_back(new ConnRef(f, two[0], two[1], c.id));
+        }
         f->processTransaction();
         for (size_t i = 0; i < fc.size(); ++i) {
             printf("fr %u", w.cns[i].id); pts(fc[i]->route()); printf("\n");
@@ -255,7 +299,7 @@ void opAddShape(World &w, vh::Rng &rng, const Rc &r, unsigned id = 0, int rot = 
     printf("op addShape %u", id); pts(polyOf(r, rot)); printf("\n"); fflush(stdout);
     Polygon p = polyOf(r, rot);
     ShapeRef *s = new ShapeRef(w.router, p, id);
-    w.obs.push_back(Ob{id, false, s, nullptr, r, true, false, rot});
+    w.obs.push_back(Ob{id, false, s, nullptr, r, true, false, rot, {}});
     after(w, rng, willProcess(w));
 }
 void opProcess(World &w, vh::Rng &rng, bool forceDump = false);
@@ -268,7 +312,7 @@ void opAddJunction(World &w, vh::Rng &rng, double x, double y) {
     unsigned id = w.nextId++;
     printf("op addJunction %u %s %s\n", id, vh::hx(x).c_str(), vh::hx(y).c_str()); fflush(stdout);
     JunctionRef *j = new JunctionRef(w.router, Point(x, y), id);
-    w.obs.push_back(Ob{id, true, nullptr, j, jbox(x, y), true, false, 0});
+    w.obs.push_back(Ob{id, true, nullptr, j, jbox(x, y), true, false, 0, {}});
     after(w, rng, willProcess(w));
 }
 void opMoveAbs(World &w, vh::Rng &rng, unsigned id, const Rc &r, bool fm) {
@@ -309,13 +353,13 @@ void opNewConn(World &w, vh::Rng &rng, const Point &s, const Point &d, bool oneC
         printf("op setEndpoint %u 1 %s %s\n", id, vh::hx(s.x).c_str(), vh::hx(s.y).c_str());
         printf("op setEndpoint %u 2 %s %s\n", id, vh::hx(d.x).c_str(), vh::hx(d.y).c_str()); fflush(stdout);
         ConnRef *c = new ConnRef(w.router, ConnEnd(s), ConnEnd(d), id);
-        w.cns.push_back(Cn{id, c, true, true, s, d});
+        w.cns.push_back(Cn{id, c, true, true, s, d, 0, 0, 0, 0});
         after(w, rng, false);
         return;
     }
     fflush(stdout);
     ConnRef *c = new ConnRef(w.router, id);
-    w.cns.push_back(Cn{id, c, false, false, Point(0, 0), Point(0, 0)});
+    w.cns.push_back(Cn{id, c, false, false, Point(0, 0), Point(0, 0), 0, 0, 0, 0});
     after(w, rng, false);
     printf("op setEndpoint %u 1 %s %s\n", id, vh::hx(s.x).c_str(), vh::hx(s.y).c_str()); fflush(stdout);
     c->setSourceEndpoint(ConnEnd(s)); w.cns.back().hs = true; w.cns.back().s = s;
@@ -327,8 +371,50 @@ void opNewConn(World &w, vh::Rng &rng, const Point &s, const Point &d, bool oneC
 void opSetEndpoint(World &w, vh::Rng &rng, size_t ci, int which, const Point &p) {
     Cn &c = w.cns[ci];
     printf("op setEndpoint %u %d %s %s\n", c.id, which, vh::hx(p.x).c_str(), vh::hx(p.y).c_str()); fflush(stdout);
-    if (which == 1) { c.c->setSourceEndpoint(ConnEnd(p)); c.hs = true; c.s = p; }
-    else { c.c->setDestEndpoint(ConnEnd(p)); c.hd = true; c.d = p; }
+    if (which == 1) { c.c->setSourceEndpoint(ConnEnd(p)); c.hs = true; c.s = p; c.sa = 0; c.scl = 0; }
+    else { c.c->setDestEndpoint(ConnEnd(p)); c.hd = true; c.d = p; c.da = 0; c.dcl = 0; }
+    after(w, rng, willProcess(w));
+}
+// new ShapeConnectionPin(shape, cls, xo, yo, proportional, insideOffset 0, dirs): the pin lies ON the border
+// (xo or yo is 0 or 1); Router::modifyConnectionPin queues a ConnectionPinChange and, with transactions off,
+// processes at once
+void opNewPin(World &w, vh::Rng &rng, unsigned id, unsigned cls, double xo, double yo) {
+    Ob *o = findOb(w, id);
+    printf("op newPin %u %u %s %s\n", id, cls, vh::hx(xo).c_str(), vh::hx(yo).c_str()); fflush(stdout);
+    ConnDirFlags dirs = ConnDirNone;
+    if (xo == 0) dirs |= ConnDirLeft; if (xo == 1) dirs |= ConnDirRight;
+    if (yo == 0) dirs |= ConnDirUp; if (yo == 1) dirs |= ConnDirDown;
+    ShapeConnectionPin *pin = new ShapeConnectionPin(o->s, cls, xo, yo, true, 0.0, dirs);
+    pin->setExclusive(false);
+    o->pins.push_back(PinDef{cls, xo, yo, pin});
+    after(w, rng, willProcess(w));
+}
+// 1-3 pins on the border of a shape: class 1 always, class 2 sometimes, sometimes two pins in class 1
+void addPins(World &w, vh::Rng &rng, unsigned id) {
+    static const double fr[] = {0.25, 0.5, 0.5, 0.75};
+    int n = 1 + (rng.coin(1, 2) ? 1 : 0) + (rng.coin(1, 4) ? 1 : 0);
+    for (int i = 0; i < n; ++i) {
+        unsigned cls = (i == 1) ? 2 : 1;
+        int side = (int) rng.range(0, 3);
+        double t = fr[rng.range(0, 3)];
+        double xo = side == 0 ? 0 : side == 1 ? 1 : t, yo = side == 2 ? 0 : side == 3 ? 1 : t;
+        // no two pins of one shape at the same point (libavoid gives all pins of a shape the same VertID; two
+        // coincident pins - even of different classes - make the second unreachable, also in a fresh router)
+        bool dup = false;
+        for (const PinDef &pd : findOb(w, id)->pins) if (pd.xo == xo && pd.yo == yo) dup = true;
+        if (dup) continue;
+        opNewPin(w, rng, id, cls, xo, yo);
+    }
+}
+// setEndpoint(which, ConnEnd(shape, cls)) / ConnEnd(junction)
+void opAttach(World &w, vh::Rng &rng, size_t ci, int which, unsigned anchor, unsigned cls) {
+    Cn &c = w.cns[ci];
+    Ob *o = findOb(w, anchor);
+    ConnEnd ce = o->isJ ? ConnEnd(o->j) : ConnEnd(o->s, cls);
+    if (o->isJ) cls = ce.pinClassId();
+    printf("op setEndpointPin %u %d %u %u\n", c.id, which, anchor, cls); fflush(stdout);
+    if (which == 1) { c.c->setSourceEndpoint(ce); c.hs = true; c.sa = anchor; c.scl = cls; }
+    else { c.c->setDestEndpoint(ce); c.hd = true; c.da = anchor; c.dcl = cls; }
     after(w, rng, willProcess(w));
 }
 void opProcess(World &w, vh::Rng &rng, bool forceDump) {
@@ -386,7 +472,7 @@ bool segHitsRect(const Point &a, const Point &b, const Rc &r) {
 std::vector<unsigned> lineBlockers(World &w) {
     std::set<unsigned> s;
     for (const Cn &c : w.cns) {
-        if (!(c.hs && c.hd)) continue;
+        if (!(c.hs && c.hd) || c.sa || c.da) continue;
         for (const Ob &o : w.obs)
             if (!o.isJ && !o.pendingDel && !o.pendingAdd && segHitsRect(c.s, c.d, o.r)) s.insert(o.id);
     }
@@ -455,6 +541,72 @@ void doMove(World &w, vh::Rng &rng, unsigned id) {
     else opMoveAbs(w, rng, id, r, rng.coin(1, 8));
 }
 
+
+// ---- connection pins: re-targets of connector ends -------------------------------------------
+struct Target { bool pin; unsigned anchor, cls; Point p; };
+// where to put end `which` of connector ci: a pin class of a live shape / a junction (not `avoid`, not the
+// anchor of the connector's other end), or a free point
+bool chooseTarget(World &w, vh::Rng &rng, size_t ci, int which, unsigned avoid, int wantPin, Target &t) {
+    const Cn &c = w.cns[ci];
+    unsigned other = which == 1 ? c.da : c.sa, own = which == 1 ? c.sa : c.da;
+    std::vector<unsigned> cand;
+    for (const Ob &o : w.obs)
+        // (no junction ends in orthogonal mode: an orthogonal connector from a junction to an aligned point trips the
+        // assertion orthogonalDirectionsCount(thisDirs) > 0 in makepath.cpp - C15 known finding kf-orth-junction-aligned-point)
+        if (!o.pendingDel && o.id != avoid && o.id != other && o.id != own && (o.isJ ? !w.orth : !o.pins.empty())) cand.push_back(o.id);
+    bool pin = wantPin < 0 ? rng.coin() : wantPin == 1;
+    if (pin && !cand.empty()) {
+        unsigned a = rng.pick(cand); Ob *o = findOb(w, a);
+        t = Target{true, a, o->isJ ? 0u : o->pins[rng.next() % o->pins.size()].cls, Point(0, 0)};
+        return true;
+    }
+    Point q; if (!randPoint(w, rng, q)) return false;
+    t = Target{false, 0, 0, q};
+    return true;
+}
+void applyTarget(World &w, vh::Rng &rng, size_t ci, int which, const Target &t) {
+    if (t.pin) opAttach(w, rng, ci, which, t.anchor, t.cls); else opSetEndpoint(w, rng, ci, which, t.p);
+}
+std::vector<std::pair<size_t, int>> attachedTo(World &w, unsigned id) {
+    std::vector<std::pair<size_t, int>> v;
+    for (size_t i = 0; i < w.cns.size(); ++i) {
+        if (w.cns[i].hs && w.cns[i].sa == id) v.push_back({i, 1});
+        if (w.cns[i].hd && w.cns[i].da == id) v.push_back({i, 2});
+    }
+    return v;
+}
+// deleteShape / deleteJunction of an obstacle that connector ends are attached to: every such end is re-targeted
+// in the SAME transaction - before the delete call, or (transactions on) after it
+void deleteDetaching(World &w, vh::Rng &rng, unsigned id) {
+    std::vector<std::pair<size_t, int>> at = attachedTo(w, id);
+    std::vector<Target> ts(at.size());
+    for (size_t i = 0; i < at.size(); ++i) if (!chooseTarget(w, rng, at[i].first, at[i].second, id, -1, ts[i])) return;
+    // two ends of one connector must not end up on the same anchor
+    for (size_t i = 0; i < at.size(); ++i) for (size_t j = i + 1; j < at.size(); ++j)
+        if (at[i].first == at[j].first && ts[i].pin && ts[j].pin && ts[i].anchor == ts[j].anchor) return;
+    bool afterwards = w.txn && rng.coin();
+    if (!afterwards) for (size_t i = 0; i < at.size(); ++i) applyTarget(w, rng, at[i].first, at[i].second, ts[i]);
+    opDelete(w, rng, id);
+    if (afterwards) for (size_t i = 0; i < at.size(); ++i) applyTarget(w, rng, at[i].first, at[i].second, ts[i]);
+}
+// a new connector (both ends free points): attach none / one / both ends to pins, in the same transaction
+void attachSome(World &w, vh::Rng &rng, size_t ci) {
+    for (int which = 1; which <= 2; ++which) {
+        if (!rng.coin(2, 3)) continue;
+        Target t; if (chooseTarget(w, rng, ci, which, 0, 1, t) && t.pin) applyTarget(w, rng, ci, which, t);
+    }
+}
+void moveJunctionSomewhere(World &w, vh::Rng &rng, unsigned id) {
+    Ob *o = findOb(w, id);
+    for (int t = 0; t < 30; ++t) {
+        double x = rng.range(2, 118), y = rng.range(2, 118);
+        if (!placeable(w, jbox(x, y), id)) continue;
+        if (rng.coin()) opMoveAbs(w, rng, id, jbox(x, y), false);
+        else opMoveRel(w, rng, id, x - (o->r.x0 + 1), y - (o->r.y0 + 1));
+        break;
+    }
+}
+
 void randomOp(World &w, vh::Rng &rng, int maxShapes) {
     long c = rng.range(0, 99);
     std::vector<unsigned> live = liveShapes(w, true);
@@ -462,13 +614,15 @@ void randomOp(World &w, vh::Rng &rng, int maxShapes) {
         if ((int) live.size() >= maxShapes) return;
         Rc r; if (!randRect(w, rng, r, 0)) return;
         opAddShape(w, rng, r);
-        if (rng.coin(1, 3)) doMove(w, rng, w.obs.back().id);
+        unsigned nid = w.obs.back().id;
+        if (w.pinsOn && rng.coin(3, 4)) addPins(w, rng, nid);
+        if (rng.coin(1, 3)) doMove(w, rng, nid);
     } else if (c < 24) {                                                               // delete
         if (live.size() <= 1) return;
         unsigned id = pickTarget(w, rng, false); if (!id) return;
         Ob *o = findOb(w, id); if (!o || o->pendingAdd) return;
         if (rng.coin(1, 4)) { doMove(w, rng, id); if (findOb(w, id)->pendingAdd) return; }   // move then delete
-        opDelete(w, rng, id);
+        if (w.pinsOn) deleteDetaching(w, rng, id); else opDelete(w, rng, id);
     } else if (c < 52) {                                                               // move (1..3 times)
         unsigned id = pickTarget(w, rng, true); if (!id) return;
         int n = rng.coin(1, 4) ? (int) rng.range(2, 3) : 1;
@@ -484,7 +638,11 @@ void randomOp(World &w, vh::Rng &rng, int maxShapes) {
         if (w.cns.empty()) return;
         size_t ci = rng.next() % w.cns.size();
         int n = rng.coin(1, 4) ? 2 : 1;
-        for (int i = 0; i < n; ++i) { Point p; if (!randPoint(w, rng, p)) return; opSetEndpoint(w, rng, ci, rng.coin() ? 1 : 2, p); }
+        for (int i = 0; i < n; ++i) {
+            int which = rng.coin() ? 1 : 2;
+            if (w.pinsOn) { Target t; if (!chooseTarget(w, rng, ci, which, 0, -1, t)) return; applyTarget(w, rng, ci, which, t); continue; }
+            Point p; if (!randPoint(w, rng, p)) return; opSetEndpoint(w, rng, ci, which, p);
+        }
     } else if (c < 79) {                                                               // junction ops
         std::vector<unsigned> js = liveJunctions(w, true);
         if (js.empty() || (js.size() < 2 && rng.coin(1, 4))) {
@@ -496,7 +654,7 @@ void randomOp(World &w, vh::Rng &rng, int maxShapes) {
             unsigned id = rng.pick(js); Ob *o = findOb(w, id);
             // (deleteJunction with transactions off used to re-enter processTransaction() from
             // ~ShapeConnectionPin: C15 finding, fixed in /repo 448bcee)
-            if (rng.coin(1, 3) && !o->pendingAdd) opDelete(w, rng, id);
+            if (rng.coin(1, 3) && !o->pendingAdd) { if (w.pinsOn) deleteDetaching(w, rng, id); else opDelete(w, rng, id); }
             else for (int t = 0; t < 30; ++t) {
                 double x = rng.range(2, 118), y = rng.range(2, 118);
                 if (!placeable(w, jbox(x, y), id)) continue;
@@ -511,7 +669,13 @@ void randomOp(World &w, vh::Rng &rng, int maxShapes) {
     } else if (c < 97) {
         opSetTxn(w, rng, !w.txn);
     } else {
-        if (w.cns.size() < 6) { Point s, d; if (randPoint(w, rng, s) && randPoint(w, rng, d) && !(s == d)) opNewConn(w, rng, s, d, rng.coin()); }
+        if (w.cns.size() < 6) {
+            Point s, d;
+            if (randPoint(w, rng, s) && randPoint(w, rng, d) && !(s == d)) {
+                opNewConn(w, rng, s, d, rng.coin());
+                if (w.pinsOn) attachSome(w, rng, w.cns.size() - 1);
+            }
+        }
     }
 }
 
@@ -679,6 +843,89 @@ void scenarioOffPending(World &w, vh::Rng &rng) {
     Point a, b; if (randPoint(w, rng, a) && randPoint(w, rng, b) && !(a == b)) opNewConn(w, rng, a, b, false);
 }
 
+
+// A connector end attached to a pin of obstacle A (a shape, or a junction) is RE-TARGETED - pin -> free point,
+// pin -> pin of another shape B, or free point -> pin of B - in the same transaction as a move / resize /
+// delete of the old anchor A and possibly of the new anchor B, in every call order; a second connector may
+// stay attached to A. Afterwards A and B move again: the re-targeted end must follow B (or stay put), not A.
+void scenarioPinRetarget(World &w, vh::Rng &rng) {
+    bool junctionOld = rng.coin(1, 4) && !w.orth;
+    int variant = (int) rng.range(0, 2);               // 0 pin->point, 1 pin->pin(B), 2 point->pin(B)
+    unsigned a = 0, b = 0;
+    if (junctionOld) {
+        for (int t = 0; t < 30 && !a; ++t) {
+            double x = rng.range(2, 118), y = rng.range(2, 118);
+            if (placeable(w, jbox(x, y), 0)) { opAddJunction(w, rng, x, y); a = w.obs.back().id; }
+        }
+    } else {
+        Rc r; if (randRect(w, rng, r, 0, 6, 24)) { opAddShape(w, rng, r); a = w.obs.back().id; addPins(w, rng, a); }
+    }
+    if (!a) return;
+    { Rc r; if (!randRect(w, rng, r, 0, 6, 24)) return; opAddShape(w, rng, r); b = w.obs.back().id; addPins(w, rng, b); }
+    Point s, d;
+    if (!randPoint(w, rng, s) || !randPoint(w, rng, d) || s == d) return;
+    opNewConn(w, rng, s, d, rng.coin());
+    size_t k = w.cns.size() - 1;
+    int which = rng.coin() ? 1 : 2;
+    unsigned acls = junctionOld ? 0u : findOb(w, a)->pins[rng.next() % findOb(w, a)->pins.size()].cls;
+    if (variant != 2) opAttach(w, rng, k, which, a, acls);
+    if (rng.coin(1, 3)) { opAttach(w, rng, k, 3 - which, b, findOb(w, b)->pins[0].cls); variant = 0; }   // other end on B: re-target to a point
+    long l = -1;
+    if (rng.coin()) {                                   // a second connector that stays attached to A
+        Point s2, d2;
+        if (randPoint(w, rng, s2) && randPoint(w, rng, d2) && !(s2 == d2)) {
+            opNewConn(w, rng, s2, d2, rng.coin()); l = (long) w.cns.size() - 1;
+            opAttach(w, rng, (size_t) l, rng.coin() ? 1 : 2, a, acls);
+        }
+    }
+    if (w.txn) opProcess(w, rng);
+    // the transaction under test
+    int oldHow = (int) rng.range(0, 6); if (oldHow > 4) oldHow -= 5;   // 0, 1 move, 2 move twice, 3 delete, 4 nothing
+    int newHow = variant == 0 ? 0 : (int) rng.range(0, 2);
+    Target tk; tk.pin = variant != 0; tk.anchor = b; tk.cls = findOb(w, b)->pins[rng.next() % findOb(w, b)->pins.size()].cls; tk.p = Point(0, 0);
+    Target tl; bool lMoves = oldHow == 3 && l >= 0;
+    // (free-point targets are chosen when the call is made: the shapes move in between; (-70,-70) lies outside the
+    // region in which `placeable` puts shapes)
+    Point farAway(-70 - (double) rng.range(0, 9), -70);
+    std::vector<int> acts = {0};                        // 0 re-target K, 1 old anchor, 2 new anchor, 3 re-target L
+    if (oldHow != 4) acts.push_back(1);
+    if (newHow != 0) acts.push_back(2);
+    if (lMoves) acts.push_back(3);
+    rng.shuffle(acts);
+    if (!w.txn && oldHow == 3) {                        // transactions off: every call is its own transaction, so the
+        std::vector<int> o2;                            // re-targets must precede the delete
+        for (int x : acts) if (x != 1) o2.push_back(x);
+        o2.push_back(1); acts = o2;
+    }
+    for (int act : acts) {
+        if (act == 0) {
+            if (!tk.pin && !randPoint(w, rng, tk.p)) tk.p = farAway;
+            applyTarget(w, rng, k, which, tk);
+        } else if (act == 3) {
+            int lw = w.cns[l].sa == a ? 1 : 2;
+            if (!chooseTarget(w, rng, (size_t) l, lw, a, -1, tl)) tl = Target{false, 0, 0, farAway};
+            applyTarget(w, rng, (size_t) l, lw, tl);
+        }
+        else {
+            unsigned id = act == 1 ? a : b; int how = act == 1 ? oldHow : newHow;
+            Ob *o = findOb(w, id);
+            if (act == 1 && how == 3) { if (!o->pendingAdd) opDelete(w, rng, id); }
+            else if (o->isJ) moveJunctionSomewhere(w, rng, id);
+            else { doMove(w, rng, id); if (how == 2 && rng.coin()) doMove(w, rng, id); }
+        }
+    }
+    if (w.txn) opProcess(w, rng);
+    // later transactions: both anchors move again
+    for (int round = 0; round < 2; ++round) {
+        for (unsigned id : {a, b}) {
+            Ob *o = findOb(w, id);
+            if (!o || o->pendingDel) continue;
+            if (o->isJ) moveJunctionSomewhere(w, rng, id); else doMove(w, rng, id);
+        }
+        if (w.txn) opProcess(w, rng);
+    }
+}
+
 // Witness of Props/C06Reroute `removal_estimate_incomplete_witness` (not part of any tier; replay with
 // --only 1000000+v): the could-be-shorter estimate of markPolylineConnectorsNeedingReroutingForDeletedObstacle
 // is >= the current route length for all four sides of O although deleting O (or moving it away) opens a
@@ -703,7 +950,8 @@ void scenarioHeuristicMiss(World &w, vh::Rng &rng, long v) {
 static void runCase(const vh::Args &a, long k) {
     static const char *tags[] = {"unblock-untouched", "unblock-touched", "block", "txn-off-pending",
                                  "rand-poly", "rand-orth", "rand-poly-off", "rand-orth-off", "block-diagonal",
-                                 "unblock-one-side", "buffer-endpoint", "buffer-endpoint-behind"};
+                                 "unblock-one-side", "buffer-endpoint", "buffer-endpoint-behind",
+                                 "pin-retarget", "rand-pin"};
     if (k >= 1000000) {
         vh::Rng rng = vh::caseRng(a.seed, k);
         World w;
@@ -730,24 +978,28 @@ static void runCase(const vh::Args &a, long k) {
         if (k % 20 == 1) cls = 9;
         if (k % 20 == 3) cls = 10;
         if (k % 40 == 23) cls = 11;
+        if (k % 10 == 4) cls = 12;                      // connection pins: directed re-target scenario
+        if (k % 20 == 19) cls = 13;                     // connection pins: random histories
         World w;
-        w.orth = (cls == 5 || cls == 7) || (cls >= 1 && cls <= 3 && rng.coin(1, 3));   // cls 0, 8, 9, 10, 11 are polyline-only
+        w.pinsOn = cls >= 12;
+        if (w.pinsOn) w.dumpsLeft = 0;                  // the graph audit does not know pin vertices
+        w.orth = (cls == 5 || cls == 7) || (cls >= 1 && cls <= 3 && rng.coin(1, 3)) || (cls >= 12 && rng.coin());   // cls 0, 8, 9, 10, 11 are polyline-only
         static const double polyPen[] = {0, 0, 10, 50}, orthPen[] = {10, 10, 50};
         w.pen = w.orth ? orthPen[rng.range(0, 2)] : polyPen[rng.range(0, 3)];
-        w.txn = !(cls == 6 || cls == 7) && !((cls <= 2 || cls >= 8) && rng.coin(1, 3));
+        w.txn = !(cls == 6 || cls == 7) && !((cls <= 2 || cls >= 8) && rng.coin(1, 3));   // (pin classes: a third with transactions off)
         vh::beginCase(k, tags[cls]);
         if (cls == 10 || cls == 11) w.buf = rng.coin() ? 4 : 8;
         else if ((cls == 4 || cls == 6) && rng.coin(1, 4)) w.buf = 4;
         printf("cfg %s %s %d %s\n", w.orth ? "orth" : "poly", vh::hx(w.pen).c_str(), (int) w.txn, vh::hx(w.buf).c_str());
         fflush(stdout);
-        w.router = mkRouter(w.orth, w.pen, w.buf);
+        w.router = mkRouter(w.orth, w.pen, w.buf, w.pinsOn);
 #ifdef ADAPTAGRAMS_VERIF_REROUTE_HOOK
         g_hookRouter = w.router; g_hookRecs.clear(); verifRerouteSink = rerouteSink;
 #endif
         if (!w.txn) { opSetTxn(w, rng, false); }
         int maxShapes = (int) rng.range(2, 10);
         // background: a few random rectangles and connectors
-        bool directed = (cls <= 3 || cls >= 8);
+        bool directed = (cls <= 3 || (cls >= 8 && cls != 13));
         int nbg = directed ? (int) rng.range(0, 3) : (int) rng.range(2, maxShapes);
         if (cls == 0) scenarioUntouched(w, rng);
         else if (cls == 1) scenarioTouched(w, rng, (int) rng.range(0, 5));
@@ -755,14 +1007,23 @@ static void runCase(const vh::Args &a, long k) {
         else if (cls == 9) scenarioOneSide(w, rng);
         else if (cls == 10) scenarioBuffer(w, rng);
         else if (cls == 11) scenarioBufferBehind(w, rng);
-        for (int i = 0; i < nbg; ++i) { Rc r; if (randRect(w, rng, r, 0)) opAddShape(w, rng, r); }
+        else if (cls == 12) scenarioPinRetarget(w, rng);
+        for (int i = 0; i < nbg; ++i) {
+            Rc r; if (!randRect(w, rng, r, 0)) continue;
+            opAddShape(w, rng, r);
+            if (w.pinsOn && rng.coin(3, 4)) addPins(w, rng, w.obs.back().id);
+        }
         if (!directed && rng.coin(1, 2))
             for (int t = 0; t < 30; ++t) {
                 double x = rng.range(2, 118), y = rng.range(2, 118);
                 if (placeable(w, jbox(x, y), 0)) { opAddJunction(w, rng, x, y); break; }
             }
         int nconn = directed ? (int) rng.range(0, 2) : (int) rng.range(1, 6);
-        for (int i = 0; i < nconn; ++i) { Point s, d; if (randPoint(w, rng, s) && randPoint(w, rng, d) && !(s == d)) opNewConn(w, rng, s, d, rng.coin()); }
+        for (int i = 0; i < nconn; ++i) {
+            Point s, d; if (!(randPoint(w, rng, s) && randPoint(w, rng, d) && !(s == d))) continue;
+            opNewConn(w, rng, s, d, rng.coin());
+            if (w.pinsOn) attachSome(w, rng, w.cns.size() - 1);
+        }
         if (w.txn) opProcess(w, rng);
         if (cls == 2) scenarioBlock(w, rng);
         if (cls == 3) scenarioOffPending(w, rng);
